@@ -41,6 +41,8 @@ Inductive gexpr :=
 | EConv (ty : string) (e : gexpr)
 | ELit (ty : string) (fields : list (string * gexpr))   (* composite literal; positional fields get their declared names *)
 | EAddr (x : string)                     (* &x: an out-parameter of an external call *)
+| EBytesLit (zs : list Z)                (* a constant byte string given by its byte values *)
+| EPkg (name : string)                   (* a package-level object of another package (binary.BigEndian): opaque *)
 | EUnsup (what : string).
 
 Inductive gstmt :=
@@ -54,6 +56,9 @@ Inductive gstmt :=
 | SFor (c : gexpr) (body : list gstmt)
 | SExpr (e : gexpr)
 | SOpAssign (x : string) (op : gop) (ty : string) (e : gexpr)   (* x += e, x++ *)
+| SIdxOp (x : string) (i : gexpr) (op : option gop) (e : gexpr)  (* x[i] = e, x[i] op= e on a byte array *)
+| SSliceCall (fn : string) (x : string) (lo hi : option gexpr) (args : list gexpr)
+                                                          (* fn(x[lo:hi], args): the callee fills the window of x *)
 | SUnsup (what : string).
 
 (* named results carry their Go type: they start at its zero value *)
@@ -245,7 +250,30 @@ Fixpoint eval (fuel : nat) (e : env) (x : gexpr) : option gval :=
                | [] => Some []
                | a :: t => match eval f e a, evs t with Some v, Some vs => Some (v :: vs) | _, _ => None end
                end) args with
-      | Some vs => match ext fn vs with Some [r] => Some r | _ => None end
+      | Some vs =>
+        if String.eqb fn "append..." then
+          match vs with
+          | [VBytes x'; VBytes y'] => Some (VBytes (x' ++ y')%list)
+          | [VNil; VBytes y'] => Some (VBytes y')
+          | _ => None
+          end
+        else if String.eqb fn "make" then
+          match vs with
+          | [VInt n] => if Z.ltb n 0 then None else Some (VBytes (repeat x00 (Z.to_nat n)))
+          | _ => None
+          end
+        else if String.eqb fn "append" then
+          match vs with
+          | VBytes x' :: more =>
+            (fix app (acc : list byte) (l : list gval) : option gval :=
+               match l with
+               | [] => Some (VBytes acc)
+               | VInt z :: t => if (Z.leb 0 z && Z.ltb z 256)%bool then app (acc ++ [match Byte.of_N (Z.to_N z) with Some c => c | None => x00 end])%list t else None
+               | _ => None
+               end) x' more
+          | _ => None
+          end
+        else match ext fn vs with Some [r] => Some r | _ => None end
       | None => None
       end
     | EConv ty a =>
@@ -263,10 +291,27 @@ Fixpoint eval (fuel : nat) (e : env) (x : gexpr) : option gval :=
                | [] => Some []
                | (n, a) :: t => match eval f e a, evf t with Some v, Some vs => Some ((n, v) :: vs) | _, _ => None end
                end) fields with
-      | Some fs => if String.eqb (substring 0 3 ty) "Err" then Some (VErr ty (map snd fs)) else Some (VStruct fs)
+      | Some fs =>
+        if String.eqb (substring 0 3 ty) "Err" then Some (VErr ty (map snd fs))
+        else if String.eqb ty "[]byte" then
+          (fix bs (l : list (string * gval)) : option gval :=
+             match l with
+             | [] => Some (VBytes [])
+             | (_, VInt z) :: t =>
+               if (Z.leb 0 z && Z.ltb z 256)%bool then
+                 match bs t with
+                 | Some (VBytes r) => Some (VBytes (match Byte.of_N (Z.to_N z) with Some c => c | None => x00 end :: r))
+                 | _ => None
+                 end
+               else None
+             | _ => None
+             end) fs
+        else Some (VStruct fs)
       | None => None
       end
     | EAddr v => match lookup v e with Some r => Some r | None => Some VNil end
+    | EBytesLit zs => Some (VBytes (map (fun z => match Byte.of_N (Z.to_N z) with Some c => c | None => x00 end) zs))
+    | EPkg _ => Some VNil
     | EUnsup _ => None
     end
   end.
@@ -440,6 +485,54 @@ Fixpoint exec (fuel : nat) (e : env) (ss : list gstmt) {struct fuel} : sres :=
         | Some (VInt xv), Some (VInt av) =>
           match arith op ty xv av with Some v => continue (update x v e) | None => stuck "opassign" end
         | _, _ => stuck "opassign"
+        end
+      | SIdxOp x i op a =>
+        match lookup x e, eval 64 e i, eval 64 e a with
+        | Some (VBytes b), Some (VInt n), Some (VInt av) =>
+          if (Z.ltb n 0 || Z.leb (Z.of_nat (List.length b)) n)%bool then stuck "index"
+          else
+            let old := match nth_error b (Z.to_nat n) with Some c => Z.of_N (Byte.to_N c) | None => 0%Z end in
+            let nv := match op with
+                      | None => Some (VInt (Z.modulo av 256))
+                      | Some o => arith o "uint8" old av
+                      end in
+            match nv with
+            | Some (VInt z) =>
+              let c := match Byte.of_N (Z.to_N (Z.modulo z 256)) with Some c => c | None => x00 end in
+              continue (update x (VBytes (firstn (Z.to_nat n) b ++ c :: skipn (S (Z.to_nat n)) b)%list) e)
+            | _ => stuck "idxop"
+            end
+        | _, _, _ => stuck "idxop"
+        end
+      | SSliceCall fn x lo hi args =>
+        match lookup x e with
+        | Some (VBytes b) =>
+          let l := match lo with None => Some 0%Z | Some le => match eval 64 e le with Some (VInt n) => Some n | _ => None end end in
+          let h := match hi with None => Some (Z.of_nat (List.length b)) | Some he => match eval 64 e he with Some (VInt n) => Some n | _ => None end end in
+          match l, h with
+          | Some l', Some h' =>
+            if (Z.ltb l' 0 || Z.ltb h' l' || Z.ltb (Z.of_nat (List.length b)) h')%bool then stuck "slice"
+            else
+              let win := firstn (Z.to_nat (h' - l')) (skipn (Z.to_nat l') b) in
+              match (fix evs (l0 : list gexpr) : option (list gval) :=
+                       match l0 with
+                       | [] => Some []
+                       | a :: t => match eval 64 e a, evs t with Some v, Some vs => Some (v :: vs) | _, _ => None end
+                       end) args with
+              | Some vs =>
+                match ext fn (VBytes win :: vs) with
+                | Some [VBytes w'] =>
+                  if Nat.eqb (List.length w') (List.length win) then
+                    continue (update x (VBytes (firstn (Z.to_nat l') b ++ w' ++ skipn (Z.to_nat h') b)%list) e)
+                  else inr OPanic               (* copyEqualSize panics on a length mismatch *)
+                | Some [VNil] => inr OPanic
+                | _ => stuck "slice call"
+                end
+              | None => stuck "slice call args"
+              end
+          | _, _ => stuck "slice bounds"
+          end
+        | _ => stuck "slice call target"
         end
       | SUnsup w => stuck w
       end
